@@ -9,7 +9,7 @@ if [ -n "$(git status --porcelain --untracked-files=no)" ]; then echo "/repo is 
 trap 'git -C /repo checkout -- . ; ' EXIT INT TERM
 mkdir -p /tmp/evalout && cp /verif/known_findings.json /tmp/evalout/ && rm -rf /tmp/evalout/known && cp -r /verif/known /tmp/evalout/known && git apply "$PATCH" || { echo "patch does not apply"; exit 2; }
 for id in $IDS; do
-  out=$(VERIF_OUT_DIR=/tmp/evalout /verif/check "$id" --tier quick ${EVAL_ARGS:-} 2>&1); rc=$?
+  out=$(DRIVER_NO_MINIMISE=1 VERIF_OUT_DIR=/tmp/evalout /verif/check "$id" --tier quick ${EVAL_ARGS:-} 2>&1); rc=$?
   echo "== $id exit=$rc"
   echo "$out" | grep -E "^VIOLATION|^  class|HARNESS" | head -12
 done
